@@ -21,8 +21,9 @@ $GO build ./... && $GO build -tags verif ./... && echo "build ok" || { echo "BUI
 echo "--- demo with change"
 if eval "$runcmd" >/tmp/mut/verify.mut.log 2>&1; then echo "PASS (unexpected: demo does not detect the change)"; mut=bad; else echo "FAIL (expected)"; mut=ok; fi
 rm -f "$WT/$place"
+git -C "$WT" checkout -- rolling-shutter/go.mod rolling-shutter/go.sum 2>/dev/null
 echo "--- existing suite with change"
-pk=$(git -C "$WT" diff --name-only | sed 's#rolling-shutter/##; s#/[^/]*$##' | sort -u | sed 's#^#./#')
+pk=$(git -C "$WT" diff --name-only | grep '\.go$' | sed 's#rolling-shutter/##; s#/[^/]*$##' | sort -u | sed 's#^#./#')
 if [ "${FULL:-0}" = 1 ]; then pk="./..."; fi
 if $GO test -vet=off -count=1 $pk ./app/... ./keyper/... ./keyperimpl/... ./p2p/... ./medley/... >/tmp/mut/verify.suite.log 2>&1; then echo "suite ok"; suite=ok; else echo "SUITE FAILS"; grep -E "^(FAIL|---)" /tmp/mut/verify.suite.log | head; suite=bad; fi
 cd /; git -C /repo worktree remove --force "$WT"
